@@ -35,7 +35,7 @@ SHIPPED = sorted(glob.glob(os.path.join(REPO, "test", "test_data", "*.fits")))
 # ------------------------------------------------------------------------------------------------ generation
 ALNUM = "ABCDEFGHIJKLMNOPQRSTUVWXYZ0123456789"
 def gen_key(rng, i):
-    style = rng.choice(["short", "short", "short8", "hier", "hier", "hierlong", "respfx"])
+    style = rng.choice(["short", "short", "short8", "hier", "hier", "hierlong"] * 4 + ["respfx"])
     if style == "short":
         return "".join(rng.choice(ALNUM[:26]) for _ in range(rng.rint(1, 5))) + "%d" % i
     if style == "short8":
